@@ -224,8 +224,10 @@ fn handle_lag<T: Clone + 'static>(rx: &mut Receiver<BroadcastMessage<T>>) -> Opt
             // channel was closed here, but we have no way of obtaining the last state.
             Err(TryRecvError::Closed) => {
                 #[cfg(feature = "tracing")]
-                info!("Channel closed after lag, can't return last state");
-                return None;
+                info!("Channel closed after lag");
+                // If we drained any messages before hitting the end of the
+                // closed channel, the last one carries the final state.
+                return msg.map(|msg| msg.state);
             }
             // Lagged twice in a row, is this possible? If it is, it's fine to just
             // loop again and look at the next try_recv result.
